@@ -103,7 +103,12 @@ def scenarios(seed: int, n: int) -> list[dict[str, Any]]:
 
 
 def stage(ctx: Any, rep: Any) -> None:
-    recs = [run_case(sc) for sc in scenarios(ctx.seed, 300 if ctx.quick else 6000)]
+    was = logging.root.manager.disable
+    logging.disable(logging.NOTSET)          # (the checks silence all logging; log records are what is posted here)
+    try:
+        recs = [run_case(sc) for sc in scenarios(ctx.seed, 300 if ctx.quick else 6000)]
+    finally:
+        logging.disable(was)
     bad = records.judge('Rec_Posting', [{k: v for k, v in r.items() if k not in ('id', 'err')} for r in recs], rep=rep)
     rep.evaluations += len(recs); rep.traces += len(recs)
     p1 = 0
